@@ -87,6 +87,14 @@ class Sched:
         self.mode = policy.get("mode", "ops")
         self.line_p = policy.get("p", 0.05) if self.mode == "lines" else 0.0
         self.op_p = policy.get("op_p", 0.5)
+        # PCT-style: strict random priorities, rare demotions at random yield points, so
+        # that one thread runs a long stretch while another is parked at one spot
+        self.pct = self.mode == "pct"
+        if self.pct:
+            self.line_p = 1.0     # every traced line is a (potential) priority change point
+            self.q_line = policy.get("q", 0.004)
+            self.q_op = policy.get("q_op", 0.05)
+        self.low = 0.0
         self.in_hook = False
         self.on_quiescent = None
         self.linecov = None
@@ -117,11 +125,25 @@ class Sched:
             finally:
                 self.in_hook = False
 
+    def _release_due(self):
+        """Every thread whose timed wait has expired at the current instant is runnable
+        (not only the first one popped when nobody else could run)."""
+        now = self.world.now
+        while self.timers and self.timers[0][0] <= now:
+            when, _, t, token = heapq.heappop(self.timers)
+            if t.state == "B" and t.wait_token == token:
+                t.state = "R"
+                t.timed_out = True
+                t.wait_token = None
+
     def _pick(self):
         w = self.world
         while True:
+            self._release_due()
             run = [t for t in self.threads if t.state == "R"]
             if run:
+                if self.pct:
+                    return max(run, key=lambda t: t.prio)
                 return run[0] if len(run) == 1 else self.rng.choice(run)
             q = self.on_quiescent
             due_now = any(t.state == "B" and t.wait_token == tok and when <= w.now
@@ -184,6 +206,20 @@ class Sched:
         if self.aborting:
             raise SimAbort()
         me = self.cur
+        if self.timers and self.timers[0][0] <= self.world.now:
+            self._release_due()
+        if self.pct:
+            if len(self.threads) < 2:
+                return
+            q = self.q_line if frame is not None else self.q_op
+            if self.rng.random() < q:
+                self.low -= 1.0
+                me.prio = self.low       # demote: everybody else now runs first
+            best = max((t for t in self.threads if t.state == "R"), key=lambda t: t.prio)
+            if best is not me:
+                me.steps += 1
+                self._handoff(me)
+            return
         p = self.line_p if frame is not None else self.op_p
         if len(self.threads) > 1 and self.rng.random() < p:
             me.steps += 1
@@ -232,6 +268,7 @@ class Sched:
 
     def spawn(self, fn, name):
         t = SimThread(self, fn, name)
+        t.prio = self.rng.random()
         self.threads.append(t)
         return t
 
